@@ -288,6 +288,11 @@ func (f *Frame) execAlloc(in *ssa.Alloc, st *State) {
 	r := c.allocObj(st, t)
 	f.localObjs = append(f.localObjs, localObj{r, t})
 	f.set(in, []Term{r})
+	if n, ok := t.(*types.Named); ok && n.Obj().Pkg() != nil && n.Obj().Pkg().Path() == "strings" && n.Obj().Name() == "Builder" {
+		// a zero strings.Builder is empty
+		g := c.heapGet(st, ghostBuilder, ArrSort(SInt, SStr))
+		c.setHeap(st, ghostBuilder, c.define("ghost", Store(g, r, Term{"str_empty", SStr})))
+	}
 }
 
 func (f *Frame) execUnOp(in *ssa.UnOp, st *State) {
